@@ -742,7 +742,7 @@ theorem integrate_prefix (v : Variant) (s : Script α) :
   split <;> rename_i heq <;> simp only [heq, R.st_next, R.st_ret, R.st_thr] at h
   · simpa [st0] using h
   · simpa [st0] using h
-  · have : st0 s |>.ev ++ [Event.init] <+: (log _ Event.min).ev := h.trans (by simp [List.prefix_append])
+  · have := h.trans (List.prefix_append _ [Event.min])
     simpa [st0] using this
 
 /-- every event of a run -/
@@ -767,9 +767,8 @@ theorem stepCheckBounds_ok (s : Script α) (st : St α) (h : ¬ cbRaises s) :
     stepCheckBounds s st = .next (log (if s.oob ≠ .inside ∧ s.policy = .warning then log (log st .cb) .warn
       else log st .cb) .cbdone) := by
   unfold cbRaises at h
-  push_neg at h
-  obtain ⟨h1, h2⟩ := h
-  have h3 : ¬ (s.oob ≠ .inside ∧ s.policy = .strict) := fun hh => h1 hh.1 hh.2
+  have h3 : ¬ (s.oob ≠ .inside ∧ s.policy = .strict) := fun hh => h (Or.inl hh)
+  have h2 : ¬ (s.cb ≠ .ok ∧ s.cb ≠ .fail) := fun hh => h (Or.inr hh)
   unfold stepCheckBounds
   rcases Act.eq_cases s.cb with hc | hc | hc | hc | hc <;> simp_all [Act.thrown]
 
